@@ -59,7 +59,7 @@ class Obs(BaseComponent):
 
     @handler('connect', 'read', 'disconnect', 'error', priority=50)
     def _on_ev(self, event, sock, *a):
-        data = a[0] if event.name == 'read' else None
+        data = a[0] if event.name == 'read' else (tuple(a) if event.name == 'connect' else None)
         self.log.append((event.name, sock, data))
 
     @handler('exception', channel='*')
@@ -342,6 +342,9 @@ class ConnModel(e1_history.Model):
                 if not s['ended'] and nd:
                     bad.append(('automaton:spurious-disconnect', '%s: connection %d is open on both sides but got disconnect: %r' % (sub.pname, c, names)))
                 data = b''.join(e[1] for e in evs if e[0] == 'read')
+                for e in evs:
+                    if e[0] == 'connect' and getattr(sub, 'peer_addr', {}).get(c) is not None and tuple(e[1][:2]) != tuple(sub.peer_addr[c][:2]):
+                        bad.append(('connect-args', '%s: connect event of connection %d names peer %r, the peer is %r' % (sub.pname, c, e[1], sub.peer_addr[c])))
                 sent = sub.sent.get(c, b'')
                 if s['sclosed'] or s.get('reset'):
                     if not sent.startswith(data):
@@ -542,6 +545,9 @@ class TcpModel(ConnModel):
             p.settimeout(2.0)
             p.connect(('127.0.0.1', sub.port))
             pport = p.getsockname()[1]
+            if not hasattr(sub, 'peer_addr'):
+                sub.peer_addr = {}
+            sub.peer_addr[c] = p.getsockname()
             sub.peers[c] = p
             sub.sent[c] = b''
             wait_until(lambda: readable(ls), 'listening socket readable after connect()', w)
